@@ -23,7 +23,7 @@ import os
 import shutil
 import tempfile
 
-from .. import core, gen
+from .. import gen
 
 NAME = 'c19job'
 
